@@ -135,21 +135,35 @@ func (e *Engine) run() {
 	}
 }
 
-// schedule picks the lowest-numbered goroutine that can make progress.
+// schedule picks the next goroutine to run at a blocking point. By default the
+// lowest-numbered goroutine that can make progress; with SchedBound > 0 up to
+// that many scheduling points per path fork over every runnable goroutine
+// (bounded exploration of the non-preemptive schedules).
 func (e *Engine) schedule() {
+	var runnable []*G
 	for _, g := range e.gs {
 		if g.done {
 			continue
 		}
-		if g.blocked == nil {
-			e.cur = g
-			return
+		if g.blocked == nil || (g.blocked.ready != nil && g.blocked.ready()) {
+			runnable = append(runnable, g)
+			if e.schedUsed >= e.cfg.SchedBound {
+				break
+			}
 		}
-		if g.blocked.ready != nil && g.blocked.ready() {
-			g.blocked = nil
-			e.cur = g
-			return
+	}
+	if len(runnable) > 0 {
+		i := 0
+		if len(runnable) > 1 {
+			i = e.choose(len(runnable))
+			if i > 0 {
+				e.schedUsed++
+			}
 		}
+		g := runnable[i]
+		g.blocked = nil
+		e.cur = g
+		return
 	}
 	// nobody can run
 	var who []string
